@@ -141,6 +141,9 @@ class H5Writer:
         """
         with fetch_h5_handle(file, mode="r+") as h5file:
             base = list(h5file)[0]
+            if ref_type not in h5file[base]:
+                return
+
             base_type_handle = h5file[base][ref_type]
             uid_str = as_str_if_uuid(uid)
 
